@@ -15,7 +15,7 @@ def run(chk):
                 'which must stay untouched) and a file on another volume, plus two orphans; trash-restore also with --overwrite onto '
                 'occupied locations; TLC (PurgeTrace) '
                 'evaluates InfoLast / RestoreNeverLoses / Frame on every post-kill on-disk state; then the command is run '
-                'again (for a killed trash-restore: trash-empty) and the final state must be the completed purge, with '
+                'again (for a killed trash-restore: first trash-restore --overwrite entry by entry - nothing may get lost -, then trash-empty) and the final state must be the completed purge, with '
                 'restored destinations intact. (3) lock-step runs: the on-disk state after every single operation of the '
                 'uninterrupted command, under permuted directory listings, is validated by TLC as a behaviour of PurgeOps '
                 '(PurgeOpsTrace). distinct = (scenario, k) and distinct state sequences')
@@ -65,6 +65,20 @@ def run(chk):
         chk.sample({'scenario': scen, 'operations of the uninterrupted run': ops[:40], 'kill points': n + 1,
                     'verdict': 'InfoLast / RestoreNeverLoses hold after every kill; the re-run completes'}, limit=4)
     obs = [o['after_kill'] for o in items] + [o['after_rerun'] for o in items]
+    # a killed trash-restore retried with --overwrite (entry by entry): judged like any state of a restore in progress
+    retried = [o for o in items if o.get('after_retry')]
+    if retried:
+        res_r, v_r = opspec.judge_purge([o['after_retry'] for o in retried])
+        chk.add_tlc('PurgeTrace:retry', res_r, constants='observed states=%d' % len(retried))
+        if res_r.ok:
+            for i, x in v_r.items():
+                it = retried[i - 1]
+                bad = [k for k, val in x.items() if not val]
+                if bad:
+                    chk.violation('retry:%s:%s:%s' % (it['scen'], it['at'][0] or 'end', '+'.join(bad)),
+                                  '%s false after a killed trash-restore was tried again with --overwrite: scenario %s, killed before '
+                                  'operation %s %s: %s' % (', '.join(bad), it['scen'], it['k'], it['at'], it['after_retry']),
+                                  {'kind': 'purge', 'item': it})
     res, v = opspec.judge_purge(obs)
     chk.add_tlc('PurgeTrace', res, constants='observed states=%d' % len(obs))
     if res.ok:
